@@ -6,6 +6,8 @@
 // Output: OK <S> <A> [<O>] <discount> <T: n x1..xn> <R: n x1..xn> [<W: n x1..xn>]   |  THROW <type>
 #include <AIToolbox/Tools/CassandraParser.hpp>
 #include <sstream>
+#include <unistd.h>
+#include <sys/wait.h>
 #include "vio.hpp"
 
 static std::string unhex(const std::string & h) {
@@ -31,21 +33,50 @@ static void dump(vio::Out & o, const AIToolbox::DumbMatrix3D & M) {
                 o << M[i][j][k];
 }
 
+static void runParse(const std::string & mode, const std::string & text, vio::Out & o) {
+    std::istringstream in(text);
+    AIToolbox::CassandraParser parser;
+    if (mode == "mdp") {
+        const auto [S, A, T, R, d] = parser.parseMDP(in);
+        if (!sane(T, S, A, S) || !sane(R, S, A, S)) { o << "BADSHAPE" << S << A; return; }
+        o << "OK" << S << A << d; dump(o, T); dump(o, R);
+    } else if (mode == "pomdp") {
+        const auto [S, A, O, T, R, W, d] = parser.parsePOMDP(in);
+        if (!sane(T, S, A, S) || !sane(R, S, A, S) || !sane(W, S, A, O)) { o << "BADSHAPE" << S << A << O; return; }
+        o << "OK" << S << A << O << d; dump(o, T); dump(o, R); dump(o, W);
+    } else throw std::logic_error("unknown mode " + mode);
+}
+
 int main(int argc, char ** argv) {
     return vio::runCases(argc, argv, [](vio::Cursor & c, vio::Out & o) {
-        c.next();                                   // case kind (driver only)
+        const std::string kind = c.next();
         const std::string mode = c.next();
         const std::string text = unhex(c.toks.back());
-        std::istringstream in(text);
-        AIToolbox::CassandraParser parser;
-        if (mode == "mdp") {
-            const auto [S, A, T, R, d] = parser.parseMDP(in);
-            if (!sane(T, S, A, S) || !sane(R, S, A, S)) { o << "BADSHAPE" << S << A; return; }
-            o << "OK" << S << A << d; dump(o, T); dump(o, R);
-        } else if (mode == "pomdp") {
-            const auto [S, A, O, T, R, W, d] = parser.parsePOMDP(in);
-            if (!sane(T, S, A, S) || !sane(R, S, A, S) || !sane(W, S, A, O)) { o << "BADSHAPE" << S << A << O; return; }
-            o << "OK" << S << A << O << d; dump(o, T); dump(o, R); dump(o, W);
-        } else throw std::logic_error("unknown mode " + mode);
+        if (kind != "ovf") { runParse(mode, text, o); return; }
+        // Overflowing sizes make today's parser write out of bounds; heap damage would surface in a
+        // LATER case. Such cases run in a forked child so that the damage is attributed to them.
+        int fd[2];
+        if (pipe(fd) != 0) throw std::logic_error("pipe failed");
+        const pid_t pid = fork();
+        if (pid < 0) throw std::logic_error("fork failed");
+        if (pid == 0) {
+            close(fd[0]);
+            vio::Out oo;
+            try { runParse(mode, text, oo); }
+            catch (const std::exception & e) { oo.os.str(""); oo.os.clear(); oo << "THROW" << vio::exnName(e); }
+            catch (...) { oo.os.str(""); oo.os.clear(); oo << "THROW" << "unknown"; }
+            const std::string s = oo.os.str();
+            size_t off = 0;
+            while (off < s.size()) { const ssize_t w = write(fd[1], s.data() + off, s.size() - off); if (w <= 0) break; off += (size_t) w; }
+            _exit(0);
+        }
+        close(fd[1]);
+        std::string got; char buf[4096]; ssize_t n;
+        while ((n = read(fd[0], buf, sizeof buf)) > 0) got.append(buf, (size_t) n);
+        close(fd[0]);
+        int status = 0; waitpid(pid, &status, 0);
+        if (WIFEXITED(status) && WEXITSTATUS(status) == 0 && !got.empty()) o.os << got;
+        else if (WIFEXITED(status)) o << "SANITIZER" << (long) WEXITSTATUS(status);
+        else o << "CRASH" << (long) (WIFSIGNALED(status) ? WTERMSIG(status) : -1);
     });
 }
